@@ -253,7 +253,7 @@ func (r *Run) Now() time.Duration {
 // stretch - without any other goroutine running in between, i.e. without ever blocking - before the run is
 // declared to be spinning.  The probes loop-stretch-over-{0.1,1,10}-percent-of-limit count the runs whose
 // longest stretch comes near it.
-const LoopLimit = 5_000_000
+const LoopLimit = 1_000_000
 
 var maxLoopsSeen int64
 
